@@ -2,6 +2,7 @@ use crate::runner::Ctx;
 
 pub mod c01;
 pub mod c02;
+pub mod c03;
 pub mod c04;
 pub mod c05;
 pub mod c06;
@@ -9,11 +10,14 @@ pub mod c07;
 pub mod c08;
 pub mod c09;
 pub mod c10;
+pub mod c11;
+pub mod collcheck;
 
 pub fn dispatch(ctx: &Ctx, replay: Option<&str>) -> i32 {
     match ctx.prop.as_str() {
         "C01" => c01::run(ctx, replay),
         "C02" => c02::run(ctx, replay),
+        "C03" => c03::run(ctx, replay),
         "C04" => c04::run(ctx, replay),
         "C05" => c05::run(ctx, replay),
         "C06" => c06::run(ctx, replay),
@@ -21,6 +25,7 @@ pub fn dispatch(ctx: &Ctx, replay: Option<&str>) -> i32 {
         "C08" => c08::run(ctx, replay),
         "C09" => c09::run(ctx, replay),
         "C10" => c10::run(ctx, replay),
+        "C11" => c11::run(ctx, replay),
         _ => {
             eprintln!("no check for property {}", ctx.prop);
             2
